@@ -92,8 +92,6 @@ def reference(case):
     if key not in _REF:
         ref_case = dict(case, mpb=1, iso='shared', default='lazy', cores=1)
         run = explore.run_once(make_body(ref_case), [])
-        if run.obs['monitor']:
-            raise AssertionError('reference run violates a monitor: %r' % (run.obs['monitor'],))
         _REF[key] = run.obs
     return _REF[key]
 
@@ -103,6 +101,11 @@ def run_tree(case):
     """Explore the complete schedule tree (optionally pruned / deviation bounded) of one configuration."""
     with pin.pinned(case.get('uuid_offset', 0)):
         ref = reference(case)
+        if ref['monitor']:
+            # the sequential run (max_parallel_batches=1, lazy client) itself breaks a monitor
+            import re
+            return bad('C04:monitor:' + re.sub(r'[0-9\[\]\(\),\' ]+', '-', ref['monitor'][0])[:70].strip('-') + ':sequential',
+                       {'monitor': ref['monitor'], 'schedule': [], 'case': dict(case, mpb=1)})
         body = make_body(case)
         explore.determinism_selftest(body, case.get('selftest_prefix', [1, 0, 1]) if case['mpb'] != 1 else [])
         logs = set()
